@@ -14,6 +14,9 @@ CLAIMED = {
     'C10': ('model_checking', '§6 C10', 'preorder/postorder (directed), order().pre()/.post() (undirected), search_nodes and search_edges, filter optional: result is the reachable set once each and is accepted by an exact DFS discovery-order automaton / exact finishing-order recogniser; search_edges gives one existing accepted edge into each non-root node in that order.'),
     'C08': ('model_checking', '§6 C08', 'Differential self-composition on digraph and sync_digraph: the same free connect sequence builds G and, with endpoints swapped, G^R; each of the 16 configurations the API offers ({bfs,dfs,pfs-min,pfs-max} x {search,search_path,search_cycle}, {preorder,postorder} x {search_nodes,search_edges}) runs with transpose() on G and without on G^R with the same symbolic values, node values and filter F; results and closure call sequences must be equal term by term, and every edge handed to a closure must be a reversed incoming (transposed) / an outgoing (plain) edge of its source.'),
     'C15': ('model_checking', '§6 C15', 'Every scenario family of the other checks (node operations and queries with handle provenance, all searches, cycles, orderings with target / transpose / filter / for_each, container and serde scenarios) is executed on the plain flavour and on the sync flavour in one executor path on shared symbolic inputs and shared iteration-order choices; all observations must be equal (z3).'),
+    'C20': ('model_checking', '§6 C20', 'A scripted operation (connect, try_connect, disconnect, isolate on any nodes, queries, nested bfs, clone+drop) fires once at a chosen step inside a loop over iter_out / iter_in / iter / `for e in &node` or inside the for_each / filter closure of bfs, dfs, pfs, cycle search and pre/postorder, on all four flavours: no path may panic, self-deadlock on a lock or exceed the step budget, every yielded edge must be an entry of its source\'s current list at that moment (z3), and the C01/C02 invariants must hold afterwards.'),
+    'C11': ('model_checking', '§6 C11', 'scc() of digraph and sync_digraph containers over every graph of the bound with the hash map\'s iteration order as a free choice at every next(): the result must be a partition equal to the mutual-reachability classes computed on the out-lists read back through iter_out.'),
+    'C18': ('model_checking', '§6 C18', 'Four containers: every history of <=3 (thorough 4) mutating calls (insert of 4 harness nodes incl. a second allocation with an existing key, remove, edge operations on members and non-members) followed by every observer (get, contains, len, is_empty, to_vec, iter, roots, leaves, orphans; index probes) is compared with a dict model; handles must be the inserted allocation; DOT exports are executed through the fmt model and compared line-structurally with the members and their iterated edges and the attributes supplied.'),
 }
 NOTE = 'Trusted base: engine A std models (validated differentially against the native build on every run), rustc MIR dump = compiled code, z3. Bounds in evidence.coverage.bounds.'
 TECH = 'bounded symbolic execution of rustc MIR (own executor) + z3; native replay of counterexamples'
